@@ -1,6 +1,7 @@
 """C09 -- key canonicalisation: calls that bind the same values to the same parameters get the same key (bounded)."""
 from bounded import keychecks as KC
 
+CROSSHAIR = ['bounded.xh.keymap_sidecar']
 CONTRACTS = ['klepto._inspect._keygen', 'klepto.keymaps.keymap/hashmap/stringmap/picklemap (.__call__, .encode, .encrypt)',
              'klepto.crypto.hash/string/pickle (through the keymaps)']
 RULE = ('one evaluation = the key of one valid call under one keymap configuration, recorded against the binding that CPython '
